@@ -283,6 +283,39 @@ def d5_gc_and_copy(ctx):
     if ta:
         rets = [(bb, t) for (bb, t) in ta.calls() if t["f"].get("path", "").endswith("::retain")]
         ctx.chk.ob("D5", "tick_all garbage-collects controllers of vanished links (retain)", len(rets) >= 1, "%d retain sites" % len(rets), key="D5:gc")
+        # ... on every pass, whatever the link set (an early return for, say, an empty set would let a vanished link's state be
+        # inherited by a later link with the same id: no longer "at the floor until an RTT sample exists"), on the per-link map,
+        # keeping exactly the ids ticked in this pass
+        tfa = ctx.fa(ta)
+        tcfg = ctx.cfg(ta)
+        on_map = [(bb, t) for (bb, t) in rets if any(is_field(x, "per_conn") for x in walk(tfa.val_operand(t["args"][0], (bb, len(ta.blocks[bb]["stmts"])))))]
+        ok = bool(on_map) and not tcfg.returns_reachable_avoiding(set(bb for (bb, t) in on_map))
+        ctx.chk.ob("D5", "tick_all reaches the per_conn.retain(..) on every path to its return", ok, "retain blocks %s" % [bb for (bb, t) in on_map], key="D5:gc-on-every-pass")
+        okc = False
+        det = ""
+        if on_map:
+            bb, t = on_map[0]
+            cl = [x for x in walk(tfa.val_operand(t["args"][1], (bb, len(ta.blocks[bb]["stmts"])))) if x[0] == "agg" and x[1] == "closure" and x[2] in ctx.w.fns]
+            if cl:
+                cf = ctx.w.fns[cl[0][2]]
+                cpa = ctx.pa(cf)
+                rt = cpa.ret_true()
+                ats = cpa.atoms_of(rt)
+                det = cpa.show(rt, 2)[:160]
+                okc = len(ats) == 1 and is_call(ats[0], name_contains="HashMap") and ats[0][1].endswith("::contains_key") and cpa.equivalent(rt, cpa.atom(ats[0]))
+                # the set it tests is the map of snapshots built in this pass: one insert per link, on every iteration
+                ins = [(b2, t2) for (b2, t2) in ta.calls() if t2["f"].get("path", "").endswith("HashMap::<K, V, S>::insert") or t2["f"].get("path", "").endswith("::insert")]
+                from ..ctx import every_iteration_reaches, full_slice_element
+                ins = [(b2, t2) for (b2, t2) in ins if tcfg.in_cycle(b2)]
+                okc = okc and len(ins) == 1
+                if okc:
+                    b2, t2 = ins[0]
+                    key = tfa.val_operand(t2["args"][1], (b2, len(ta.blocks[b2]["stmts"])))
+                    okc = is_field(key, "conn_id") and full_slice_element(strip_old(key[1])) == ("param", 2)
+                    if okc:
+                        okc, d2 = every_iteration_reaches(ctx.w, ta, tfa, key[1], b2, lambda a_: False)
+                        det += " ; " + d2
+        ctx.chk.ob("D5", "the retain keeps exactly the ids that were ticked (and inserted into the snapshot map) in this pass", okc, det, key="D5:gc-keeps-ticked")
     # the shell copies target / latch / backing-off onto the connection in the housekeeping arm only
     from ..ctx import CONN
     for fld in ("cc_target_bps", "loss_degraded", "cc_backing_off", "weak"):
